@@ -11,9 +11,10 @@
   with the clock value carried by every request (any clock progression, including backwards).
 -/
 import SH.Model.Meta
+import SH.Lemmas.MetaFlood
 
 namespace SH.C19
-open SH.Meta
+open SH.Meta SH.MetaFlood
 
 /-! ### C19.1  the mapping table is a bijection in every reachable state -/
 
@@ -479,10 +480,393 @@ theorem reset_sets_budget (c : Cfg) (s : State) (m : Nat) (limit : Int) (now : N
     simp only [this, if_false]
     simp [setFlood, lookupFlood]
 
-/-! ### non-vacuity and the observed quirks -/
-
+/-- a small configuration for the concrete witnesses: budget 3, one unit per 60 s, no global budget -/
 def c3 : Cfg := { maxBudget := 3, step := 60, bonus := 1, globalBudget := 0 }
 def gcs (reqs : List (Nat × Nat)) : List Op := reqs.map (fun r => Op.getOrCreate 1 r.1 r.2)
+
+/-! ### C19.5  the composed flood bound over full mixed histories (with restarts)
+
+  "Once the global budget is exhausted, the number of new mappings a metric can create in any time span is at most its remaining
+   budget (the maximum budget, or the value set by a flood reset) plus the per-step bonus times the number of elapsed steps."
+
+  A history is any `List HOp`: get-or-create for any metrics and keys, put, delete, reset-flood, entity saves and restarts. A time
+  span is any segment `ops` of such a history, started in the state `s` the prefix produced. Hypotheses, each one necessary:
+  * `Exhausted c s` — the global budget is exhausted (the last created id is not inside it and the id sequence is past it); this
+    is preserved by every operation (`exhausted_hstep`), so it is a condition on the start of the span only;
+  * no reset-flood of `m` inside the span (a reset hands out a new budget: it starts a new span; resets of other metrics are fine);
+  * the clock seen by `m`'s get-or-create requests is non-decreasing from `t0` and stays ≤ `T < 2^32` (other requests may carry any
+    time). Without it the bound is false: `backwards_clock_breaks_bound`.
+  * `CfgOk`: stepSec ≥ 1, bonus ≥ 0, maxBudget ≥ 1 (with maxBudget = 0 a first creation still succeeds: `zero_budget_creates`). -/
+
+def isCreated : MapOut → Bool
+  | .created _ => true
+  | _ => false
+
+/-- the operation creates a mapping on behalf of metric `m` when run in state `s` -/
+def createdNow (c : Cfg) (s : State) (m : Nat) : HOp → Bool
+  | .op (.getOrCreate m' k now) => m' == m && isCreated (getOrCreate c s m' k now).2
+  | _ => false
+
+/-- number of mappings created for metric `m` while `ops` runs from `s` -/
+def createdFor (c : Cfg) (m : Nat) : State → List HOp → Nat
+  | _, [] => 0
+  | s, o :: os => (if createdNow c s m o then 1 else 0) + createdFor c m (hstep c s o) os
+
+def noReset (m : Nat) : HOp → Bool
+  | .op (.reset m' _ _) => m' != m
+  | _ => true
+
+/-- the times carried by the get-or-create requests of metric `m` are non-decreasing, start at `t0` or later and end at `T` or
+    earlier; nothing is required of any other request -/
+def clockOk (m T : Nat) : Nat → List HOp → Bool
+  | _, [] => true
+  | t0, .op (.getOrCreate m' _ now) :: os =>
+    if m' == m then decide (t0 ≤ now) && decide (now ≤ T) && clockOk m T now os else clockOk m T t0 os
+  | t0, _ :: os => clockOk m T t0 os
+
+/-- the remaining budget of a metric: its flood row, or the maximum budget when it has none -/
+def budget (c : Cfg) (s : State) (m : Nat) : Int :=
+  match lookupFlood s.flood m with
+  | some f => f.free
+  | none => c.maxBudget
+
+structure CfgOk (c : Cfg) : Prop where
+  step : 1 ≤ c.step
+  bonus : 0 ≤ c.bonus
+  maxB : 1 ≤ c.maxBudget
+
+/-- "the global budget is exhausted" -/
+def Exhausted (c : Cfg) (s : State) : Prop := skipFlood c s = false ∧ c.globalBudget ≤ (s.mapSeq : Int)
+
+theorem skipFlood_of_last (c : Cfg) (s t : State) (h : t.lastCreated = s.lastCreated) : skipFlood c t = skipFlood c s := by
+  unfold skipFlood; rw [h]
+
+/-- once exhausted, always exhausted — whatever happens next, restarts included -/
+theorem exhausted_hstep (c : Cfg) (s : State) (o : HOp) (h : Exhausted c s) : Exhausted c (hstep c s o) := by
+  obtain ⟨h1, h2⟩ := h
+  cases o with
+  | reopen => exact ⟨by simp [hstep, reopen, skipFlood], h2⟩
+  | op o =>
+    have hseq := mapSeq_mono c s o
+    cases o with
+    | save a =>
+      obtain ⟨_, hl, hs, _⟩ := save_frame s a
+      exact ⟨by simp only [hstep, step]; rw [skipFlood_of_last c s _ hl]; exact h1, by simp only [hstep, step]; rw [hs]; exact h2⟩
+    | put kvs =>
+      refine ⟨?_, by simp only [hstep] at *; omega⟩
+      simp only [hstep, step]; rw [skipFlood_of_last c s _ (putMany_frame kvs s).2]; exact h1
+    | delete ids => exact ⟨by simpa [hstep, step, deleteIds, skipFlood] using h1, by simpa [hstep, step, deleteIds] using h2⟩
+    | reset m l now =>
+      refine ⟨?_, by simp only [hstep] at *; omega⟩
+      have : (resetFlood c s m l now).1.lastCreated = s.lastCreated := by unfold resetFlood; split <;> rfl
+      simp only [hstep, step]; rw [skipFlood_of_last c s _ this]; exact h1
+    | getOrCreate m k now =>
+      simp only [hstep, step]
+      have hs := goc_shape c s m k now
+      generalize getOrCreate c s m k now = p at hs
+      cases hs with
+      | got id hk => exact ⟨h1, h2⟩
+      | flood f hk hf hh => exact ⟨h1, h2⟩
+      | created free hk hfree =>
+        refine ⟨?_, by simp only; push_cast; omega⟩
+        simp only [skipFlood, Bool.and_eq_false_iff, decide_eq_false_iff_not]
+        right; push_cast; omega
+
+theorem exhausted_hrun (c : Cfg) : ∀ (ops : List HOp) (s : State), Exhausted c s → Exhausted c (hrun c s ops) := by
+  intro ops
+  induction ops with
+  | nil => intro s h; exact h
+  | cons o os ih => intro s h; exact ih _ (exhausted_hstep c s o h)
+
+/-- FRAME: what one operation does to the flood row of metric `m` — nothing, unless it is a reset of `m` (excluded by `noReset`)
+    or a successful creation for `m`, which rewrites the row as one bucket attempt -/
+theorem hstep_row (c : Cfg) (s : State) (m : Nat) (o : HOp) (hex : Exhausted c s) (hr : noReset m o = true) :
+    (lookupFlood (hstep c s o).flood m = lookupFlood s.flood m ∧ createdNow c s m o = false) ∨
+    (∃ k now free, o = .op (.getOrCreate m k now) ∧ createdNow c s m o = true ∧
+      lookupFlood (hstep c s o).flood m = some { metric := m, last := roundTime now c.step, free := free } ∧
+      ((∃ f, lookupFlood s.flood m = some f ∧
+            ¬ attempt c f.free (subU32 (roundTime now c.step) (u32 f.last) / c.step) < 0 ∧
+            free = attempt c f.free (subU32 (roundTime now c.step) (u32 f.last) / c.step)) ∨
+       (lookupFlood s.flood m = none ∧ free = c.maxBudget - 1))) := by
+  cases o with
+  | reopen => left; exact ⟨rfl, rfl⟩
+  | op o =>
+    cases o with
+    | save a => left; exact ⟨by simp only [hstep, step]; rw [(save_frame s a).1], rfl⟩
+    | put kvs => left; exact ⟨by simp only [hstep, step]; rw [(putMany_frame kvs s).1], rfl⟩
+    | delete ids => left; exact ⟨rfl, rfl⟩
+    | reset m' l now =>
+      left
+      have hne : m' ≠ m := by simpa [noReset] using hr
+      refine ⟨?_, rfl⟩
+      simp only [hstep, step, resetFlood]
+      split
+      · exact lookup_filter_ne m m' hne s.flood
+      · exact lookup_setFlood_ne s.flood _ m hne
+    | getOrCreate m' k now =>
+      have hs := goc_shape c s m' k now
+      by_cases hm : m' = m
+      · subst hm
+        simp only [hstep, step, createdNow, beq_self_eq_true, Bool.true_and]
+        generalize getOrCreate c s m' k now = p at hs
+        cases hs with
+        | got id hk => left; exact ⟨rfl, rfl⟩
+        | flood f hk hf hh => left; exact ⟨rfl, rfl⟩
+        | created free hk hfree =>
+          right
+          refine ⟨k, now, free, rfl, rfl, lookup_setFlood_eq s.flood _, ?_⟩
+          rcases hfree with ⟨f, hf, hh, hfr⟩ | ⟨hf, hfr⟩
+          · left
+            have hb : budgetFor c s f (roundTime now c.step)
+                = attempt c f.free (subU32 (roundTime now c.step) (u32 f.last) / c.step) := by
+              unfold budgetFor; rw [hex.1]; exact calcBudget_eq_attempt c f.free (u32 f.last) (roundTime now c.step)
+            refine ⟨f, hf, ?_, by rw [hfr, hb]⟩
+            unfold floodHit at hh
+            rw [hex.1, hb] at hh
+            simpa using hh
+          · right; exact ⟨hf, hfr⟩
+      · left
+        have hmb : (m' == m) = false := by simpa using hm
+        refine ⟨?_, by simp [createdNow, hmb]⟩
+        simp only [hstep, step]
+        generalize getOrCreate c s m' k now = p at hs
+        cases hs with
+        | got id hk => rfl
+        | flood f hk hf hh => rfl
+        | created free hk hfree => exact lookup_setFlood_ne s.flood _ m hm
+
+/-- how the clock hypothesis moves along one operation -/
+theorem clock_step (m T t0 : Nat) (o : HOp) (os : List HOp) (h : clockOk m T t0 (o :: os) = true) :
+    ∃ t1, t0 ≤ t1 ∧ (t0 ≤ T → t1 ≤ T) ∧ clockOk m T t1 os = true ∧ (∀ k now, o = .op (.getOrCreate m k now) → t1 = now ∧ now ≤ T) := by
+  cases o with
+  | reopen => exact ⟨t0, Nat.le_refl _, id, h, by intro k now h'; cases h'⟩
+  | op o =>
+    cases o with
+    | save a => exact ⟨t0, Nat.le_refl _, id, h, by intro k now h'; cases h'⟩
+    | put kvs => exact ⟨t0, Nat.le_refl _, id, h, by intro k now h'; cases h'⟩
+    | delete ids => exact ⟨t0, Nat.le_refl _, id, h, by intro k now h'; cases h'⟩
+    | reset m' l now => exact ⟨t0, Nat.le_refl _, id, h, by intro k now h'; cases h'⟩
+    | getOrCreate m' k now =>
+      simp only [clockOk] at h
+      by_cases hm : (m' == m) = true
+      · simp only [hm, if_true, Bool.and_eq_true, decide_eq_true_eq] at h
+        refine ⟨now, h.1.1, fun _ => h.1.2, h.2, ?_⟩
+        intro k' now' h'; injection h' with h'; injection h' with _ _ h3; exact ⟨h3, h3 ▸ h.1.2⟩
+      · simp only [hm] at h
+        refine ⟨t0, Nat.le_refl _, id, h, ?_⟩
+        intro k' now' h'; injection h' with h'; injection h' with h1 _ _
+        exact absurd (by simp [h1]) hm
+
+/-- PHASE 2: the row of `m` was written by a creation at step index `kl` (its time is rounded) and the clock has not gone back:
+    the measured steps are the real ones and the budget is a potential — every creation costs 1, every step refills `bonus` -/
+theorem clean_phase (c : Cfg) (hc : CfgOk c) (m T : Nat) (hT : T < two32) : ∀ (ops : List HOp) (s : State) (kl : Nat) (free : Int) (t0 : Nat),
+    Exhausted c s → lookupFlood s.flood m = some { metric := m, last := c.step * kl, free := free } →
+    kl ≤ t0 / c.step → t0 ≤ T → (∀ o ∈ ops, noReset m o = true) → clockOk m T t0 ops = true →
+    (createdFor c m s ops : Int) ≤ max 0 (free + c.bonus * ((T / c.step - kl : Nat) : Int)) := by
+  intro ops
+  induction ops with
+  | nil => intro s kl free t0 _ _ _ _ _ _; simp [createdFor]; omega
+  | cons o os ih =>
+    intro s kl free t0 hex hrow hkl ht0 hnr hck
+    obtain ⟨t1, ht01, ht1T, hck', hnow⟩ := clock_step m T t0 o os hck
+    have hex' := exhausted_hstep c s o hex
+    have hnr' : ∀ o' ∈ os, noReset m o' = true := fun o' h => hnr o' (List.mem_cons_of_mem _ h)
+    have hk1 : kl ≤ t1 / c.step := Nat.le_trans hkl (Nat.div_le_div_right ht01)
+    simp only [createdFor]
+    rcases hstep_row c s m o hex (hnr o (List.mem_cons_self)) with ⟨hsame, hcr⟩ | ⟨k, now, free', ho, hcr, hnew, hfrom⟩
+    · rw [hcr]
+      have := ih (hstep c s o) kl free t1 hex' (by rw [hsame]; exact hrow) hk1 (ht1T ht0) hnr' hck'
+      simpa using this
+    · rw [hcr]
+      obtain ⟨ht1, hnowT⟩ := hnow k now ho
+      subst ht1
+      have hn32 : t1 < two32 := by omega
+      rcases hfrom with ⟨f, hf, hpos, hfr⟩ | ⟨hf, _⟩
+      · rw [hrow] at hf
+        injection hf with hf
+        subst hf
+        simp only at hpos hfr
+        rw [measured_steps_clean c.step kl t1 hc.step hn32 hk1] at hpos hfr
+        have hle := attempt_le c hc.bonus free (t1 / c.step - kl)
+        have hnew' : lookupFlood (hstep c s o).flood m = some { metric := m, last := c.step * (t1 / c.step), free := free' } := by
+          rw [hnew, roundTime_eq t1 c.step hn32]
+        have hih := ih (hstep c s o) (t1 / c.step) free' t1 hex' hnew' (Nat.le_refl _) hnowT hnr' hck'
+        have hKT : t1 / c.step ≤ T / c.step := Nat.div_le_div_right hnowT
+        have hsplit : (T / c.step - kl : Nat) = (t1 / c.step - kl) + (T / c.step - t1 / c.step) := by omega
+        have hmul : c.bonus * ((T / c.step - kl : Nat) : Int)
+            = ((t1 / c.step - kl : Nat) : Int) * c.bonus + c.bonus * ((T / c.step - t1 / c.step : Nat) : Int) := by
+          rw [hsplit]; push_cast; rw [Int.mul_add, Int.mul_comm c.bonus]
+        have hnn : 0 ≤ c.bonus * ((T / c.step - t1 / c.step : Nat) : Int) := Int.mul_nonneg hc.bonus (Int.natCast_nonneg _)
+        rw [hmul]
+        rw [← hfr] at hle hpos
+        simp only [if_true]
+        push_cast
+        omega
+      · rw [hrow] at hf; cases hf
+
+/-- "…at most its remaining budget (the maximum budget, or the value set by a flood reset) plus the per-step bonus times the
+    number of elapsed steps": for every span `ops` of every mixed history (any metrics, keys, puts, deletes, resets of other metrics,
+    entity saves, restarts) started with the global budget exhausted, under a non-decreasing clock of `m`'s requests in [t0, T],
+        #created(m) ≤ max(maxBudget, remaining budget of m at the start) + bonus · (⌊T/step⌋ − ⌊t0/step⌋). -/
+theorem flood_bound (c : Cfg) (hc : CfgOk c) (m T : Nat) (hT : T < two32) : ∀ (ops : List HOp) (s : State) (t0 : Nat),
+    Exhausted c s → t0 ≤ T → (∀ o ∈ ops, noReset m o = true) → clockOk m T t0 ops = true →
+    (createdFor c m s ops : Int) ≤ max c.maxBudget (budget c s m) + c.bonus * ((T / c.step - t0 / c.step : Nat) : Int) := by
+  intro ops
+  induction ops with
+  | nil =>
+    intro s t0 _ _ _ _
+    have h0 : 0 ≤ c.bonus * ((T / c.step - t0 / c.step : Nat) : Int) := Int.mul_nonneg hc.bonus (Int.natCast_nonneg _)
+    have := hc.maxB
+    simp [createdFor]; omega
+  | cons o os ih =>
+    intro s t0 hex ht0 hnr hck
+    obtain ⟨t1, ht01, ht1T, hck', hnow⟩ := clock_step m T t0 o os hck
+    have hex' := exhausted_hstep c s o hex
+    have hnr' : ∀ o' ∈ os, noReset m o' = true := fun o' h => hnr o' (List.mem_cons_of_mem _ h)
+    have hK01 : t0 / c.step ≤ t1 / c.step := Nat.div_le_div_right ht01
+    have hK1T : t1 / c.step ≤ T / c.step := Nat.div_le_div_right (ht1T ht0)
+    have hmono : c.bonus * ((T / c.step - t1 / c.step : Nat) : Int) ≤ c.bonus * ((T / c.step - t0 / c.step : Nat) : Int) :=
+      Int.mul_le_mul_of_nonneg_left (by omega) hc.bonus
+    simp only [createdFor]
+    rcases hstep_row c s m o hex (hnr o (List.mem_cons_self)) with ⟨hsame, hcr⟩ | ⟨k, now, free', ho, hcr, hnew, hfrom⟩
+    · rw [hcr]
+      have hb : budget c (hstep c s o) m = budget c s m := by unfold budget; rw [hsame]
+      have := ih (hstep c s o) t1 hex' (ht1T ht0) hnr' hck'
+      rw [hb] at this
+      simp only [Bool.false_eq_true, if_false]
+      push_cast
+      omega
+    · rw [hcr]
+      obtain ⟨ht1, hnowT⟩ := hnow k now ho
+      subst ht1
+      have hn32 : t1 < two32 := by omega
+      have hnew' : lookupFlood (hstep c s o).flood m = some { metric := m, last := c.step * (t1 / c.step), free := free' } := by
+        rw [hnew, roundTime_eq t1 c.step hn32]
+      have hclean := clean_phase c hc m T hT os (hstep c s o) (t1 / c.step) free' t1 hex' hnew' (Nat.le_refl _) hnowT hnr' hck'
+      have hnn : 0 ≤ c.bonus * ((T / c.step - t1 / c.step : Nat) : Int) := Int.mul_nonneg hc.bonus (Int.natCast_nonneg _)
+      have hfree : 0 ≤ free' ∧ free' ≤ max c.maxBudget (budget c s m) - 1 := by
+        rcases hfrom with ⟨f, hf, hpos, hfr⟩ | ⟨hf, hfr⟩
+        · have hcap := attempt_cap c f.free (subU32 (roundTime t1 c.step) (u32 f.last) / c.step)
+          have hbud : budget c s m = f.free := by unfold budget; rw [hf]
+          rw [hbud, hfr]
+          refine ⟨by omega, ?_⟩
+          by_cases hle : f.free ≤ c.maxBudget
+          · have := hcap.1 hle; omega
+          · have := hcap.2 (by omega); omega
+        · have hbud : budget c s m = c.maxBudget := by unfold budget; rw [hf]
+          have := hc.maxB
+          rw [hbud, hfr]; omega
+      simp only [if_true]
+      push_cast
+      omega
+
+/-- the remaining budget that enters the bound is itself bounded: every flood row the system writes holds at most
+    max(maxBudget, 10000) (10000 = the cap of ResetFlood) -/
+theorem attempt_le_bound (c : Cfg) (free : Int) (el : Nat) (B : Int) (hB : c.maxBudget ≤ B) (h : free ≤ B) : attempt c free el ≤ B := by
+  have hcap := attempt_cap c free el
+  by_cases hle : free ≤ c.maxBudget
+  · have := hcap.1 hle; omega
+  · have := hcap.2 (by omega); omega
+
+/-- every flood row holds at most max(maxBudget, 10000) -/
+def FloodBounded (c : Cfg) (s : State) : Prop := ∀ f ∈ s.flood, f.free ≤ max c.maxBudget maxResetLimit
+
+theorem mem_setFlood {fl : List Flood} {f g : Flood} (h : g ∈ setFlood fl f) : g = f ∨ g ∈ fl := by
+  unfold setFlood at h
+  rcases List.mem_cons.mp h with h | h
+  · exact Or.inl h
+  · exact Or.inr (List.mem_filter.mp h).1
+
+theorem lookupFlood_mem {fl : List Flood} {m : Nat} {f : Flood} (h : lookupFlood fl m = some f) : f ∈ fl :=
+  List.mem_of_find?_eq_some h
+
+theorem floodBounded_hstep (c : Cfg) (s : State) (o : HOp) (h : FloodBounded c s) : FloodBounded c (hstep c s o) := by
+  cases o with
+  | reopen => exact h
+  | op o =>
+    cases o with
+    | save a => intro f hf; simp only [hstep, step] at hf; rw [(save_frame s a).1] at hf; exact h f hf
+    | put kvs => intro f hf; simp only [hstep, step] at hf; rw [(putMany_frame kvs s).1] at hf; exact h f hf
+    | delete ids => exact h
+    | reset m l now =>
+      intro f hf
+      simp only [hstep, step, resetFlood] at hf
+      split at hf
+      · exact h f (List.mem_filter.mp hf).1
+      · rcases mem_setFlood hf with hf | hf
+        · subst hf; exact resetAfter_le c l
+        · exact h f hf
+    | getOrCreate m k now =>
+      simp only [hstep, step]
+      have hs := goc_shape c s m k now
+      generalize getOrCreate c s m k now = p at hs
+      cases hs with
+      | got id hk => exact h
+      | flood f hk hf hh => exact h
+      | created free hk hfree =>
+        intro g hg
+        rcases mem_setFlood hg with hg | hg
+        · subst hg
+          simp only
+          rcases hfree with ⟨f, hf, _, hfr⟩ | ⟨_, hfr⟩
+          · rw [hfr]
+            unfold budgetFor
+            split
+            · exact Int.le_max_left _ _
+            · rw [calcBudget_eq_attempt]
+              exact attempt_le_bound c f.free _ _ (Int.le_max_left _ _) (h f (lookupFlood_mem hf))
+          · rw [hfr]; have := Int.le_max_left c.maxBudget maxResetLimit; omega
+        · exact h g hg
+
+/-- "(the maximum budget, or the value set by a flood reset)": in every state reachable by any history with restarts the
+    remaining budget of every metric is at most max(maxBudget, 10000), 10000 being the largest value a reset can set -/
+theorem budget_bounded (c : Cfg) : ∀ (ops : List HOp) (s : State), FloodBounded c s → ∀ m,
+    budget c (hrun c s ops) m ≤ max c.maxBudget maxResetLimit := by
+  intro ops
+  induction ops with
+  | nil =>
+    intro s h m
+    unfold budget hrun
+    simp only [List.foldl_nil]
+    cases hf : lookupFlood s.flood m with
+    | none => exact Int.le_max_left _ _
+    | some f => exact h f (lookupFlood_mem hf)
+  | cons o os ih => intro s h m; exact ih _ (floodBounded_hstep c s o h) m
+
+-- non-vacuity of `flood_bound`: its hypotheses hold on a mixed history (other metric, put, delete, reset of another metric, an
+-- entity-free restart) and the bound is attained: 3 = maxBudget creations at once, flood-limit, one more after one step
+def mixed : List HOp :=
+  [.op (.getOrCreate 1 1 600), .op (.getOrCreate 2 7 600), .op (.getOrCreate 1 2 610), .op (.put [(9, 40)]), .reopen,
+   .op (.getOrCreate 1 3 610), .op (.reset 2 5 620), .op (.getOrCreate 1 4 650), .op (.delete [1]), .op (.getOrCreate 1 4 665)]
+
+example : CfgOk c3 := ⟨by decide, by decide, by decide⟩
+example : Exhausted c3 State.empty := ⟨by decide, by decide⟩
+example : (∀ o ∈ mixed, noReset 1 o = true) ∧ clockOk 1 665 600 mixed = true := by decide
+example : createdFor c3 1 State.empty mixed = 4 ∧ budget c3 State.empty 1 = 3 ∧ 665 / 60 - 600 / 60 = 1 := by decide
+example : (getOrCreate c3 (hrun c3 State.empty (mixed.take 7)) 1 4 650).2 = .flood := by decide
+
+/-- without the clock hypothesis the bound is false: budget 3, bonus 1 per 60 s; three creations at t = 600 exhaust the budget, then
+    the clock goes BACK to 540 and the unsigned subtraction `now − lastTimeUpdate` wraps to ≈ 2^32 s: the budget is refilled to
+    maxBudget − 1 and three more mappings are created although no step has elapsed -/
+theorem backwards_clock_breaks_bound :
+    createdFor c3 1 State.empty ((gcs [(1, 600), (2, 600), (3, 600), (4, 540), (5, 540), (6, 540)]).map HOp.op) = 6 ∧
+    clockOk 1 600 0 ((gcs [(1, 600), (2, 600), (3, 600), (4, 540), (5, 540), (6, 540)]).map HOp.op) = false := by decide
+
+/-- what the wrap does in general: whenever the measured steps times the bonus cover the gap to maxBudget the row is reset to
+    maxBudget − 1, whatever it held -/
+theorem wrap_refills (c : Cfg) (free : Int) (el : Nat) (hf : free ≤ c.maxBudget)
+    (hbig : c.maxBudget ≤ free - 1 + (el : Int) * c.bonus) : attempt c free el = c.maxBudget - 1 := by
+  unfold attempt overMax
+  have : ¬ (decide (c.maxBudget < free) = true) := by simpa using Int.not_lt.mpr hf
+  simp only [this, hbig, if_true]
+  rfl
+
+/-- maxBudget = 0 is not a "no mappings" configuration: the first creation of a metric succeeds and stores −1 -/
+theorem zero_budget_creates :
+    (getOrCreate { maxBudget := 0, step := 60, bonus := 0, globalBudget := 0 } State.empty 1 1 600).2 = .created 1 := by decide
+
+/-! ### non-vacuity and the observed quirks -/
+
 
 -- budget 3, no time passes: three creations, then flood-limit; one step later one more creation
 example : ((gcs [(1, 600), (2, 600), (3, 600)]).foldl (step c3) State.empty).maps.map (·.1) = [3, 2, 1] := by decide
